@@ -8,6 +8,8 @@ import ModVerif.Generated.FnTlog
 import ModVerif.Model.Tlog
 import ModVerif.Proofs.TieFnTlogInt
 import ModVerif.Proofs.TieFnTlogIntTree
+import ModVerif.Proofs.TieFnTlogIntStore
+import ModVerif.Proofs.TieFnTlogIntOvf
 namespace ModVerif.Tie.FnTlogInt
 open ModVerif ModVerif.GoRt ModVerif.TieFnTlogInt
 
@@ -30,6 +32,17 @@ theorem StoredHashIndex_tie (fuel : Nat) (level n : Int) (hl : 0 ≤ level) (hn 
 example : Generated.Tlog.StoredHashIndex 64 2 5 = .ok 44 ∧ Tlog.storedHashIndex (2 : Int).toNat (5 : Int).toNat = 44 := by
   exact ⟨rfl, rfl⟩
 
+/-- the range hypothesis of `StoredHashIndex_tie` is exact: for int64 arguments `level ≥ 0`, `n ≥ 0` whose result does
+    not fit in int64 the checked translation reports the overflow (the Go code wraps around). -/
+theorem StoredHashIndex_tie_overflow (fuel : Nat) (level n : Int) (hl : 0 ≤ level) (hl' : level < 2 ^ 63) (hn : 0 ≤ n)
+    (hn' : n < 2 ^ 63) (hr : 2 ^ 63 ≤ Tlog.storedHashIndex level.toNat n.toNat) (hf : level.toNat + 64 ≤ fuel) :
+    Generated.Tlog.StoredHashIndex fuel level n = .error .overflow := by
+  have := StoredHashIndex_overflow fuel level.toNat n.toNat (by omega) (by omega) hr hf
+  rwa [Int.toNat_of_nonneg hl, Int.toNat_of_nonneg hn] at this
+
+example : Generated.Tlog.StoredHashIndex 128 0 (2 ^ 62 + 1) = .error .overflow ∧
+    2 ^ 63 ≤ Tlog.storedHashIndex (0 : Int).toNat ((2 ^ 62 + 1 : Int)).toNat := ⟨rfl, by decide⟩
+
 /-- `SplitStoredHashIndex(index)` for `0 ≤ index ≤ MaxInt64 - 1`.  The model never fails there
     (`TlogStore.split_total`), so the right-hand side is `.ok (level, n)`; `splitOut` maps a model error to the
     "bad math" panic.  (At `index = MaxInt64` the value `x` of the loop is `2^63`: int64 overflow.) -/
@@ -40,6 +53,14 @@ theorem SplitStoredHashIndex_tie (fuel : Nat) (index : Int) (h0 : 0 ≤ index) (
 
 example : Generated.Tlog.SplitStoredHashIndex 64 44 = .ok (2, 5) ∧
     splitOut (Tlog.splitStoredHashIndex (44 : Int).toNat) = .ok (2, 5) := ⟨rfl, rfl⟩
+
+/-- the bound `index < MaxInt64` of `SplitStoredHashIndex_tie` is exact: `MaxInt64 = StoredHashIndex(0, 2^62)` is a valid
+    stored-hash index (the model answers `(0, 2^62)`), but the loop then computes `indexN + 1 = 2^63`: int64 overflow. -/
+theorem SplitStoredHashIndex_tie_maxInt64 (fuel : Nat) (hf : 64 ≤ fuel) :
+    Generated.Tlog.SplitStoredHashIndex fuel (2 ^ 63 - 1) = .error .overflow := by
+  have := SplitStoredHashIndex_maxInt64 fuel hf
+  have e : (((2 ^ 63 - 1 : Nat)) : Int) = 2 ^ 63 - 1 := by omega
+  rwa [e] at this
 
 /-- `StoredHashCount(n)` for `n ≥ 0` whenever the result fits in int64. -/
 theorem StoredHashCount_tie (fuel : Nat) (n : Int) (h0 : 0 ≤ n) (hr : Tlog.storedHashCount n.toNat < 2 ^ 63) (hf : 64 ≤ fuel) :
@@ -68,5 +89,58 @@ example : Generated.Tlog.subTreeIndex 127 0 13 [7] = .ok [7, 14, 21, 22] ∧
 
 example : Generated.Tlog.subTreeIndex 127 1 3 [] = .error .panic ∧
     subTreeIndexOut [] (Tlog.subTreeIndex (1 : Int).toNat (3 : Int).toNat) = .error .panic := ⟨rfl, rfl⟩
+
+/-- `StoredHashesForRecordHash(n, h, r)` for an ARBITRARY hash type, node-hash function and reader `r`, for
+    `0 ≤ n < MaxInt64` such that every index that is read (`shIndexes n` = the model's list
+    `StoredHashIndex(i, n>>i - 1)`, `i < TrailingZeros64(n+1)`) fits in int64.  `readerOf r` is the model reader induced by
+    `r`; `shOut` returns the model's hashes with a nil error, and for a failed read `nil` with the reader's own error or
+    the "wrong number of hashes" message (`readErrOf`), which is what the Go code returns. -/
+theorem StoredHashesForRecordHash_tie {H : Type} [DecidableEq H] [Inhabited H] (node : H → H → H) (fuel : Nat) (n : Int)
+    (h : H) (r : List Int → List H × Option String) (h0 : 0 ≤ n) (hn : n < 2 ^ 63 - 1)
+    (hr : ∀ x ∈ shIndexes n.toNat, x < 2 ^ 63) (hf : 128 ≤ fuel) :
+    Generated.Tlog.StoredHashesForRecordHash node fuel n h r =
+      .ok (shOut r n.toNat (Tlog.storedHashesForRecordHash node n.toNat h (readerOf r))) := by
+  have := StoredHashesForRecordHash_eq' node fuel n.toNat h r (by omega) hr hf
+  rwa [Int.toNat_of_nonneg h0] at this
+
+/-- the same when the position `StoredHashIndex(0, n)` at which the record's hashes are to be stored fits in int64
+    (every index read is smaller: `shIndexes_lt`) -/
+theorem StoredHashesForRecordHash_tie_of_index {H : Type} [DecidableEq H] [Inhabited H] (node : H → H → H) (fuel : Nat)
+    (n : Int) (h : H) (r : List Int → List H × Option String) (h0 : 0 ≤ n)
+    (hr : Tlog.storedHashIndex 0 n.toNat < 2 ^ 63) (hf : 128 ≤ fuel) :
+    Generated.Tlog.StoredHashesForRecordHash node fuel n h r =
+      .ok (shOut r n.toNat (Tlog.storedHashesForRecordHash node n.toNat h (readerOf r))) := by
+  rw [Tlog.storedHashIndex_zero_eq] at hr
+  have := StoredHashesForRecordHash_eq node fuel n.toNat h r hr hf
+  rwa [Int.toNat_of_nonneg h0] at this
+
+/-- the same under the simple range hypothesis `n < 2^62` -/
+theorem StoredHashesForRecordHash_tie_of_lt {H : Type} [DecidableEq H] [Inhabited H] (node : H → H → H) (fuel : Nat) (n : Int)
+    (h : H) (r : List Int → List H × Option String) (h0 : 0 ≤ n) (hr : n < 2 ^ 62) (hf : 128 ≤ fuel) :
+    Generated.Tlog.StoredHashesForRecordHash node fuel n h r =
+      .ok (shOut r n.toNat (Tlog.storedHashesForRecordHash node n.toNat h (readerOf r))) := by
+  apply StoredHashesForRecordHash_tie_of_index node fuel n h r h0 _ hf
+  rw [Tlog.storedHashIndex_zero_eq]
+  have := Tlog.S_le_two_mul n.toNat
+  omega
+
+/-- the same for StoredHashIndex: a complete subtree `(level, n)` of a log of at most `2^62` records -/
+theorem StoredHashIndex_tie_of_le (fuel : Nat) (level n : Int) (hl : 0 ≤ level) (hn : 0 ≤ n)
+    (hr : (n.toNat + 1) * 2 ^ level.toNat ≤ 2 ^ 62) (hf : 64 ≤ fuel) :
+    Generated.Tlog.StoredHashIndex fuel level n = .ok (Int.ofNat (Tlog.storedHashIndex level.toNat n.toNat)) :=
+  StoredHashIndex_tie fuel level n hl hn (storedHashIndex_lt_of_le _ _ hr) hf
+
+-- non-vacuity on `H := Nat`: record 3 completes two subtrees; the reader returns 10·index, resp. fails
+example : Generated.Tlog.StoredHashesForRecordHash (fun a b : Nat => 2 * a + 3 * b + 1) 128 3 5
+      (fun idx => (idx.map fun i => i.toNat * 10, none)) = .ok ([5, 76, 269], none) ∧
+    shOut (fun idx => (idx.map fun i => i.toNat * 10, none)) (3 : Int).toNat
+      (Tlog.storedHashesForRecordHash (fun a b : Nat => 2 * a + 3 * b + 1) (3 : Int).toNat 5
+        (readerOf fun idx => (idx.map fun i => i.toNat * 10, none))) = ([5, 76, 269], none) := ⟨rfl, rfl⟩
+
+example : Generated.Tlog.StoredHashesForRecordHash (fun a b : Nat => a + b) 128 3 5
+      (fun _ => ([], some "boom")) = .ok ([], some "boom") ∧
+    shOut (fun _ => ([], some "boom")) (3 : Int).toNat
+      (Tlog.storedHashesForRecordHash (fun a b : Nat => a + b) (3 : Int).toNat 5
+        (readerOf fun _ => ([], some "boom"))) = ([], some "boom") := ⟨rfl, rfl⟩
 
 end ModVerif.Tie.FnTlogInt
